@@ -3,6 +3,9 @@
 package sonic
 
 import (
+	"io"
+	"syscall"
+
 	"github.com/talostrading/sonic/internal/vf"
 	"github.com/talostrading/sonic/internal/vsys/vkernel"
 )
@@ -105,6 +108,140 @@ func VerifC02_Write() {
 	}
 	vf.Assert("at-most-once", calls <= 1)
 	vf.Assert("dispatched-restored", ioc.Dispatched == d0)
+	if calls == 1 {
+		vf.Reach("completed")
+		acc := vkernel.K.FDs[fd].Accepted
+		if gotErr == nil {
+			vf.Reach("success")
+			vf.Assert("count-equals-bytes-moved", gotN == len(acc))
+			if all {
+				vf.Assert("writeall-success-means-full", gotN == L)
+			}
+		} else {
+			vf.Assert("error-count-not-above-transferred", vf.All(0 <= gotN, gotN <= len(acc)))
+		}
+		if len(acc) > 0 {
+			j := vf.Int("j")
+			vf.Assume(vf.All(0 <= j, j < len(acc)))
+			vf.Assert("peer-gets-the-callers-bytes", acc[j] == b[j])
+		}
+		vf.Assert("nothing-pending-after-completion", ioc.Pending() == 0)
+	}
+	vf.Reach("end")
+}
+
+// ---- AsyncAdapter-wrapped net.Conn (what the WebSocket client uses) ----
+
+type c02RawConn struct{ fd int }
+
+func (c c02RawConn) Control(f func(fd uintptr)) error    { f(uintptr(c.fd)); return nil }
+func (c c02RawConn) Read(f func(fd uintptr) bool) error  { f(uintptr(c.fd)); return nil }
+func (c c02RawConn) Write(f func(fd uintptr) bool) error { f(uintptr(c.fd)); return nil }
+
+// c02NetConn behaves like a net.Conn on the descriptor: the adapter calls Read/Write only after
+// epoll reported readiness, a 0-byte read is io.EOF, there is no would-block.
+type c02NetConn struct{ fd int }
+
+func (c c02NetConn) SyscallConn() (syscall.RawConn, error) { return c02RawConn{c.fd}, nil }
+
+func (c c02NetConn) Read(p []byte) (int, error) {
+	n, e := vkernel.Read(c.fd, p)
+	if e != 0 {
+		return 0, e
+	}
+	if n == 0 {
+		return 0, io.EOF
+	}
+	return n, nil
+}
+
+func (c c02NetConn) Write(p []byte) (int, error) {
+	n, e := vkernel.Write(c.fd, p)
+	if e != 0 {
+		return 0, e
+	}
+	return n, nil
+}
+
+func c02Adapter() (*IO, *AsyncAdapter, int) {
+	vkernel.Reset(vkernel.Config{AllowEOF: true, AllowIOErr: true, AllowPartial: true, Batch: 1,
+		MaxDataOps: vf.Bound("adapter-kernel-segments", 3, 4), MaxWaits: 6})
+	ioc := MustIO()
+	fd := vkernel.NewStream()
+	var a *AsyncAdapter
+	NewAsyncAdapter(ioc, c02NetConn{fd}, c02NetConn{fd}, func(err error, ad *AsyncAdapter) { a = ad })
+	vf.Assume(a != nil)
+	return ioc, a, fd
+}
+
+func VerifC02_AdapterRead() {
+	ioc, a, fd := c02Adapter()
+	L := vf.Len("L")
+	vf.Assume(vf.All(1 <= L, L <= 1<<31))
+	b := make([]byte, L)
+	all := vf.Bool("all")
+	calls, gotN := 0, 0
+	var gotErr error
+	cb := func(err error, n int) { calls++; gotErr, gotN = err, n }
+	if all {
+		a.AsyncReadAll(b, cb)
+	} else {
+		a.AsyncRead(b, cb)
+	}
+	vf.Assert("adapter-defers-to-the-poller", calls == 0)
+	vf.Unwind(16)
+	polls := 0
+	for calls == 0 && polls < 5 {
+		ioc.PollOne()
+		polls++
+	}
+	vf.Assert("at-most-once", calls <= 1)
+	if calls == 1 {
+		vf.Reach("completed")
+		del := vkernel.K.FDs[fd].Delivered
+		if gotErr == nil {
+			vf.Reach("success")
+			vf.Assert("count-equals-bytes-moved", gotN == len(del))
+			if all {
+				vf.Assert("readall-success-means-full", gotN == L)
+				if vkernel.K.DataOps >= 3 {
+					vf.Reach("readall-in-three-segments")
+				}
+			}
+		} else {
+			vf.Assert("error-count-not-above-transferred", vf.All(0 <= gotN, gotN <= len(del)))
+		}
+		if gotN > 0 {
+			j := vf.Int("j")
+			vf.Assume(vf.All(0 <= j, j < gotN))
+			vf.Assert("bytes-are-the-stream", b[j] == del[j])
+		}
+		vf.Assert("nothing-pending-after-completion", ioc.Pending() == 0)
+	}
+	vf.Reach("end")
+}
+
+func VerifC02_AdapterWrite() {
+	ioc, a, fd := c02Adapter()
+	L := vf.Len("L")
+	vf.Assume(vf.All(1 <= L, L <= 1<<31))
+	b := vf.Bytes("payload", L)
+	all := vf.Bool("all")
+	calls, gotN := 0, 0
+	var gotErr error
+	cb := func(err error, n int) { calls++; gotErr, gotN = err, n }
+	if all {
+		a.AsyncWriteAll(b, cb)
+	} else {
+		a.AsyncWrite(b, cb)
+	}
+	vf.Unwind(16)
+	polls := 0
+	for calls == 0 && polls < 5 {
+		ioc.PollOne()
+		polls++
+	}
+	vf.Assert("at-most-once", calls <= 1)
 	if calls == 1 {
 		vf.Reach("completed")
 		acc := vkernel.K.FDs[fd].Accepted
